@@ -121,6 +121,8 @@ def run_group(tier, seed):
     picked = pick_pool(seed)
     texts = [render(c["prog"]) for c in picked]
     pool = observe_pool(texts)
+    for entry, c in zip(pool, picked):
+        entry["prog"] = c["prog"]
     # pool contracts that check a field of "the transaction at my index + off"
     relc = []
     for i, c in enumerate(picked, 1):
@@ -152,12 +154,13 @@ def run_group(tier, seed):
            "configs": len(judged), "multi": len([s for s in stats if s["n"] > 1]),
            "with_vulnerable": len([s for s in stats if s["nv"] > 0]),
            "with_cleared_by_other": sum(s["nc"] for s in stats),
-           "targets_with_two_declarers": sum(s["n2"] for s in stats), "rel_checkers": relc}
+           "targets_with_two_declarers": sum(s["n2"] for s in stats), "rel_checkers": relc,
+           "sound_searched": sum(s["ns"] for s in stats), "reported_with_concrete_group": sum(s["nw"] for s in stats)}
     return ws, {str(j["pid"]): j for j in judged}, tot, texts
 
 
 def group_cached(tier, seed):
-    key = ["group", tier, seed, fw.tree_hash(), _files_hash(SPEC_FILES(["Group", "GroupGen", "GroupCheck", "Prng", "Gen", "Teal"])),
+    key = ["group", tier, seed, fw.tree_hash(), _files_hash(SPEC_FILES(["Group", "GroupSem", "GroupGen", "GroupCheck", "Prng", "Gen", "Teal", "Cfg", "Avm", "Reps"])),
            _files_hash(HARNESS_FILES(["checks/group.py"])), SIZES[tier]]
 
     def build():
@@ -178,7 +181,8 @@ def collect(prop, tier, seed):
         w["size"] = len(c["txs"])
         w["pipe"] = "group"
         mine.append(w)
-    if tot["multi"] == 0 or tot["with_vulnerable"] == 0 or tot["with_cleared_by_other"] == 0 or tot["targets_with_two_declarers"] == 0:
+    if (tot["multi"] == 0 or tot["with_vulnerable"] == 0 or tot["with_cleared_by_other"] == 0 or tot["targets_with_two_declarers"] == 0
+            or tot["sound_searched"] == 0 or tot["reported_with_concrete_group"] == 0):
         raise fw.Machinery("vacuous: no multi-transaction configuration / no vulnerable verdict / nothing cleared by another "
                            "member / no target declared by two members: %s" % tot)
     cov = {"states": tot["states"], "transitions": tot["transitions"], "traces_validated_against_impl": tot["configs"],
@@ -186,9 +190,13 @@ def collect(prop, tier, seed):
            "configurations_with_a_vulnerable_transaction": tot["with_vulnerable"],
            "verdicts_cleared_by_another_member_only": tot["with_cleared_by_other"],
            "targets_declared_by_two_members": tot["targets_with_two_declarers"],
+           "not_reported_pairs_searched_for_an_approved_concrete_group": tot["sound_searched"],
+           "reported_pairs_with_an_approved_concrete_group_sampled": tot["reported_with_concrete_group"],
            "rule": "GroupCheck.tla: configurations of GroupGen.tla (1-3 transactions over a pool of 12 contracts that check "
                    "own fields, absolute indices 0/1, offsets +1/-1, or nothing; types txn/pay/axfer/appl; absolute indices; "
-                   "relative offsets) x 8 detectors; non-trivial = configurations with more than one transaction",
+                   "relative offsets) x 8 detectors; GroupSem.tla: for every eligible transaction the tool did not report, every concrete "
+                   "group consistent with the configuration (sizes up to 5, all placements, the fields some member reads) is run on "
+                   "the Avm machine for every member; non-trivial = configurations with more than one transaction",
            "samples": [r["cases"][k] for k in sorted(r["cases"])[:2]]}
 
     def replay_of(w):
@@ -199,4 +207,5 @@ def collect(prop, tier, seed):
     return {"witnesses": mine, "cov": cov, "replay_of": replay_of,
             "assumptions": ["Group!Vulnerable is the reading of the property's clearing rules, evaluated on the tool's own leaf "
                             "contexts (the soundness of those contexts is C06-C10's business)",
-                            "the concrete-group soundness clause of C13 is covered only through C01/C10 on the member contracts"]}
+                            "concrete groups: positions not configured hold Avm!DefaultTx; group sizes up to 5; only fields read by "
+                            "some member (plus the detector's dangerous value on the target) are enumerated"]}
